@@ -13,7 +13,7 @@ import (
 func init() {
 	register(&propInfo{
 		ID:          "C09",
-		Explanation: "Path analysis of the server's reply-producing code: (R09.1) the response encoder inserts \"jsonrpc\" and \"id\" on every path and exactly one of \"error\" (iff the error field is non-nil) and \"result\"; (R09.2) every response literal carries the constant version \"2.0\" and an id read from the request being answered; (R09.3) in the dispatcher every path of an id-bearing request emits at least one reply and no reply is ever followed by another one (a successful channel registration counts as the reply; the notification return after the user call emits none); (R09.4) no error reply is followed by the user call (dispatcher) or by dispatching the same request (reader); (R09.5) the protocol error codes at the method-lookup failure, arity mismatch, empty request/batch and envelope-decode failure sites are -32601, -32602, -32600 and -32700; (R09.6) batch framing: the array brackets and separators are produced by one framing provider that writes '[' for the first and ',' for every later element that actually produces output, every emitter inside the batch loop is given that provider, the closing bracket is written exactly when something was emitted, and the loop never aborts the array; (R09.7) over WebSocket a request without id is given a discarding, non-nil writer and an id-bearing one the locked message writer. (R09.1 also) the id member written by the encoder is the response's id field itself, never a converted value; (R09.11) every use of a message writer is json.NewEncoder, or a Write of a constant, of a json.Marshal result or of a writer wrapper's own parameter.",
+		Explanation: "Path analysis of the server's reply-producing code: (R09.1) the response encoder inserts \"jsonrpc\" and \"id\" on every path and exactly one of \"error\" (iff the error field is non-nil) and \"result\"; (R09.2) every response literal carries the constant version \"2.0\" and an id read from the request being answered; (R09.3) in the dispatcher every path of an id-bearing request emits at least one reply and no reply is ever followed by another one (a successful channel registration counts as the reply; the notification return after the user call emits none); (R09.4) no error reply is followed by the user call (dispatcher) or by dispatching the same request (reader); (R09.5) the protocol error codes at the method-lookup failure, arity mismatch, empty request/batch and envelope-decode failure sites are -32601, -32602, -32600 and -32700; (R09.6) batch framing: the array brackets and separators are produced by one framing provider that writes '[' for the first and ',' for every later element that actually produces output, every emitter inside the batch loop is given that provider, the closing bracket is written exactly when something was emitted, and the loop never aborts the array; (R09.7) over WebSocket a request without id is given a discarding, non-nil writer and an id-bearing one the locked message writer. (R09.1 also) the id member written by the encoder is the response's id field itself, never a converted value; (R09.11) every use of a message writer is json.NewEncoder, or a Write of a constant, of a json.Marshal result or of a writer wrapper's own parameter. (R09.12) the frame executor never blocks on something only a finishing handler releases; (R09.13) the id normaliser returns nil next to every error; (R09.14) a callback handed to a writer provider writes on every path.",
 		NotDecided:  "HTTP status codes, arbitrary body bytes and value encodings (encoding/json), a notification that fails before the user call still being answered with an id:null error (existing behaviour, outside the decided clauses).",
 		Assumptions: []string{"reply emitters are: calls of a value of the error-reply function type, the lazy-writer helper, and the channel registrar"},
 		Run:         runC09,
@@ -26,11 +26,22 @@ func (c *Ctx) isChanRegistrarCall(in ssa.Instruction) bool {
 	if !ok || ci.Common().IsInvoke() {
 		return false
 	}
-	prm, ok := ci.Common().Value.(*ssa.Parameter)
-	if !ok {
+	// a function value handed to the dispatcher: a parameter, or a field of a parameter struct that
+	// groups the reply sinks (never a static callee)
+	if staticCallee(ci) != nil {
 		return false
 	}
-	sig, ok := prm.Type().Underlying().(*types.Signature)
+	fromParam := false
+	switch x := ci.Common().Value.(type) {
+	case *ssa.Parameter:
+		fromParam = true
+	default:
+		fromParam = c.allOrigins(x, func(a apath) bool { _, isP := a.Root.(*ssa.Parameter); return isP })
+	}
+	if !fromParam {
+		return false
+	}
+	sig, ok := ci.Common().Value.Type().Underlying().(*types.Signature)
 	if !ok || sig.Params().Len() != 2 || sig.Results().Len() != 1 {
 		return false
 	}
@@ -1589,6 +1600,11 @@ func (c *Ctx) callbackAlwaysWrites(rule string) {
 						return false
 					}
 					if cx.Common().IsInvoke() && fromW(cx.Common().Value) {
+						return true
+					}
+					// the attempt to encode the reply counts: when encoding fails there is nothing to write
+					switch calleeName(cx) {
+					case "encoding/json.Marshal", "encoding/json.MarshalIndent", "(*encoding/json.Encoder).Encode":
 						return true
 					}
 					for _, a := range cx.Common().Args {
